@@ -172,6 +172,12 @@ func (g *c15gen) trx(sides [][2]string) string {
 	if g.r.chance(8) {
 		sb.WriteString("@performance(" + pick(g.r, c15Commodities) + ")" + g.eol())
 	}
+	if g.r.chance(10) {
+		// an accrued transaction (training and target alike): the annotation names one more account, which is neither
+		// side of any booking (seeded change C15e-accrual-account-as-counter-account used it as the booking's "other
+		// account", so that the real other account became a candidate again)
+		sb.WriteString("@accrue " + pick(g.r, []string{"monthly", "weekly", "quarterly", "daily"}) + " 2020-01-01 2020-06-30 " + pick(g.r, g.pool) + g.eol())
+	}
 	sb.WriteString(g.date() + g.sp() + "\"" + g.desc() + "\"" + g.eol())
 	for _, s := range sides {
 		sb.WriteString(s[0] + g.sp() + s[1] + g.sp() + g.qty() + g.sp() + pick(g.r, c15Commodities) + g.eol())
